@@ -18,6 +18,15 @@ Since(b, u) == /\ last' = [op |-> "since", a |-> cur, b |-> b, u |-> u, r |-> Di
 AddAct(D, ovf) == LET o == AddDateI(cur, D.y, D.mo, D.w, D.d, ovf)
                   IN /\ last' = [op |-> "add", a |-> cur, dur |-> D, ovf |-> ovf, out |-> o]
                      /\ cur' = IF o.kind = "ok" /\ o.val \in Window THEN o.val ELSE cur
+\* a duration that also carries a time part: its whole days (24 h each, toward zero) are added with the days. tf = [h, short]:
+\* h hours, or - short - one nanosecond less than h hours; the sign is that of the date part (positive when there is none)
+AbsSmall(D) == D.y \in {-1, 0, 1} /\ D.mo \in {-1, 0, 1} /\ D.w = 0 /\ D.d \in {-1, 0, 1}
+TimeForms == {[h |-> 24, short |-> FALSE], [h |-> 24, short |-> TRUE], [h |-> 48, short |-> FALSE], [h |-> 3096, short |-> TRUE], [h |-> 4800, short |-> TRUE], [h |-> 4800, short |-> FALSE]}
+SgnOfD(D) == IF D.y < 0 \/ D.mo < 0 \/ D.w < 0 \/ D.d < 0 THEN -1 ELSE 1
+TimeDays(tf) == IF tf.short THEN (tf.h * 3600 - 1) \div 86400 ELSE (tf.h * 3600) \div 86400
+AddTimeAct(D, tf, ovf) == LET sg == SgnOfD(D)   o == AddDateI(cur, D.y, D.mo, D.w, D.d + sg * TimeDays(tf), ovf)
+                          IN /\ last' = [op |-> "addTime", a |-> cur, dur |-> D, tf |-> tf, sg |-> sg, ovf |-> ovf, out |-> o]
+                             /\ cur' = cur
 SubAct(D, ovf) == LET o == AddDateI(cur, -D.y, -D.mo, -D.w, -D.d, ovf)
                   IN /\ last' = [op |-> "subtract", a |-> cur, dur |-> D, ovf |-> ovf, out |-> o]
                      /\ cur' = IF o.kind = "ok" /\ o.val \in Window THEN o.val ELSE cur
@@ -25,6 +34,7 @@ SubAct(D, ovf) == LET o == AddDateI(cur, -D.y, -D.mo, -D.w, -D.d, ovf)
 Next == /\ (OneStep => last = None)
         /\ \/ \E b \in Window, u \in LargestSet : Until(b, u) \/ Since(b, u)
            \/ \E D \in DurSet, ovf \in {"constrain", "reject"} : AddAct(D, ovf) \/ SubAct(D, ovf)
+           \/ \E D \in DurSet, tf \in TimeForms, ovf \in {"constrain"} : AbsSmall(D) /\ AddTimeAct(D, tf, ovf)
 Spec == Init /\ [][Next]_vars
 
 (* ---------------- properties (state invariants over the last transition) ---------------- *)
